@@ -14,7 +14,7 @@
 (***************************************************************************)
 EXTENDS Naturals, Sequences, FiniteSets, TLC
 
-CONSTANTS Streams, MaxSent, MaxWrite, MaxMsg, MaxTotal, Bufs
+CONSTANTS Streams, MaxSent, MaxWrite, MaxMsg, MaxTotal, MaxClose, Bufs
 
 Dirs == {"ab", "ba"}
 Chans == Streams \X Dirs
@@ -56,6 +56,7 @@ Write(s, d, k) ==
 
 CloseWrite(s, d) ==
   /\ s \in opened /\ ~wfin[<<s, d>>]
+  /\ Cardinality({c \in Chans : wfin[c]}) < MaxClose
   /\ wfin' = [wfin EXCEPT ![<<s, d>>] = TRUE]
   /\ wire' = [wire EXCEPT ![d] = Append(@, [s |-> s, fin |-> TRUE, pt |-> <<>>])]
   /\ op' = [name |-> "closewrite", s |-> s, d |-> d]
@@ -71,10 +72,10 @@ Pump(d) ==
   /\ op' = [name |-> "pump", d |-> d]
   /\ UNCHANGED <<opened, sent, wfin, delivered, eof>>
 
-\* Read is offered whenever the real call is certain to return: data for the stream is buffered or in
-\* flight, or its FIN is; the model takes what is buffered after pumping as far as needed (the harness
-\* does not compare byte counts of muxed reads: they depend on the receive loop's timing)
-InFlight(c) == \E i \in 1..Len(wire[c[2]]) : wire[c[2]][i].s = c[1]
+\* Read is offered when the real call is certain to return without further writes: data is buffered for the
+\* stream, or the buffer is empty and the FIN has arrived.  (The harness does not compare byte counts of
+\* muxed reads - they depend on the receive loop's timing - it reads up to the unit boundary the model
+\* delivers to.)
 Read(s, d, b) ==
   LET c == <<s, d>> IN
   /\ s \in opened /\ ~eof[c]
